@@ -1,0 +1,43 @@
+//go:build verif
+
+package tex
+
+// Proof harnesses for govc (property C20, see /verif/DESIGN.md): client code that decodes what the encoder
+// produced. govc verifies these bodies against the contracts of MarshalJSON and UnmarshalJSON (in
+// zz_contracts_verif.go), which makes decode(encode(x)) == x a checked consequence of the two contracts.
+// Compiled only with the build tag `verif`; never called.
+
+func verifRoundTripJsInt64(v JsInt64) (JsInt64, error) {
+	var b, _ = v.MarshalJSON()
+	var o = new(JsInt64)
+	var err = o.UnmarshalJSON(b)
+	return *o, err
+}
+
+func verifRoundTripJsUInt64(v JsUInt64) (JsUInt64, error) {
+	var b, _ = v.MarshalJSON()
+	var o = new(JsUInt64)
+	var err = o.UnmarshalJSON(b)
+	return *o, err
+}
+
+func verifRoundTripUnixStamp(v UnixStamp) (UnixStamp, error) {
+	var b, _ = v.MarshalJSON()
+	var o = new(UnixStamp)
+	var err = o.UnmarshalJSON(b)
+	return *o, err
+}
+
+func verifRoundTripJsUnixTime(v JsUnixTime) (JsUnixTime, error) {
+	var b, _ = v.MarshalJSON()
+	var o = new(JsUnixTime)
+	var err = o.UnmarshalJSON(b)
+	return *o, err
+}
+
+func verifRoundTripDuration(v Duration) (Duration, error) {
+	var b, _ = v.MarshalJSON()
+	var o = new(Duration)
+	var err = o.UnmarshalJSON(b)
+	return *o, err
+}
